@@ -1115,7 +1115,7 @@ class Sym:
         tgt = self.fx.by_dp.get(f.get("resolved_dp")) or self.fx.by_dp.get(f.get("dp"))
         if tgt and tgt in self.fx.bodies:
             b = self.fx.bodies[tgt]
-            mut_ok = not mut_idx or (self.inline_mut and all(vals[i][0] in ("place", "pl") for i in mut_idx)
+            mut_ok = not mut_idx or (self.inline_mut and not b.get("impl_trait") and all(vals[i][0] in ("place", "pl") for i in mut_idx)
                                      and not any(re.match(r"^&mut [A-Z]\w*$", (p_.get("ty") or "")) for p_ in b["params"]))
             if b["krate"] in self.krates and not self.opaque(tgt) and tgt not in self.stack \
                     and len(self.stack) <= self.inline_depth and mut_ok and (not has_loop(b) or self.inline_mut):
